@@ -94,7 +94,7 @@ def run(prop_id, tier, seed, replay=None, configs=None, workers=None, quiet=Fals
     samples = []
     arms = {}
     progress = collections.Counter()
-    evals = cut_calls = guard = ro = sup = 0
+    evals = cut_calls = guard = ro = sup = rep = 0
     for r in results:
         _merge_counts(counters, r["counters"])
         _merge_counts(contracts, r["contracts"])
@@ -106,6 +106,7 @@ def run(prop_id, tier, seed, replay=None, configs=None, workers=None, quiet=Fals
         cut_calls += r["cut_calls"]
         guard += r["guard_checks"]
         ro += r["readonly_calls"]
+        rep += r.get("repeat_checks", 0)
         sup += r["stdout_suppressed"]
         pc = per_cfg.setdefault(r["config"], {"evaluations": 0, "cut_calls": 0, "workers": 0})
         pc["evaluations"] += r["evaluations"]
@@ -179,6 +180,7 @@ def run(prop_id, tier, seed, replay=None, configs=None, workers=None, quiet=Fals
                 "contract_evaluations": dict(sorted(contracts.items())),
                 "input_guard_checks": guard,
                 "calls_with_readonly_inputs": ro,
+                "calls_repeated_and_compared": rep,
                 "suppressed_prints_of_code_under_test": sup,
                 "known_findings_matched": {k: len(v) for k, v in known_hit.items()},
                 "inconclusive_reasons": inconclusive[:20],
